@@ -1,3 +1,4 @@
 /- Aggregate: C12 integer and parse-side float theorems (C12.lean), print-side error bounds and the subnormal band of the parser (C12Print.lean). -/
 import AJ.Props.C12
 import AJ.Props.C12Print
+import AJ.Props.SlotCor
